@@ -20,7 +20,7 @@ from harness.tcpsim import (Environment, Packet, TCPSink, Path, LinkPath, Record
 from vlib.util import run_driver, split_cases
 
 ASSUMPTIONS = [
-    'a path is order-preserving per direction, delays each packet by an arbitrary non-negative amount and drops a finite set of transmission indices (DESIGN §3)',
+    'a path is order-preserving per direction, delays each packet by an arbitrary non-negative amount and drops a finite set of transmission indices (DESIGN §3); the one exception is the loss-free mildly reordering family (see `reordering paths` below)',
     'the flow size is a positive multiple of the MSS (512); flow.finish_time = inf; start_time, arrival_dist, size_dist unset; out attached; ACK packets carry flow_id >= 10000',
     'sequence numbers and sizes are natural numbers; RTT samples are non-negative (an ACK is not stamped in the future)',
     'theorems are over exact rationals; the executable models run at IEEE double and are compared bit for bit with the implementation',
